@@ -626,6 +626,43 @@ def run_mix(steps, cache, reuse=False):
         d.kill()
 
 
+def units_fixture():
+    """A generated file of four or more units with a supplementary file of several units next to it."""
+    from ..drv import BUILD
+    from .. import dwforest as DF
+    from ..dwgen import build_file, build_alt_file
+    d = os.path.join(BUILD, "run", "c12-units")
+    main = os.path.join(d, "units.o")
+    if os.path.exists(main):
+        return main
+    tmp = d + ".%d" % os.getpid()
+    os.makedirs(tmp, exist_ok=True)
+    rnd = random.Random(0x0175)
+    while True:
+        f = DF.ForestGen(rnd, DF.FCfg(max_units=6, max_dies=12, alt=1.0, partial=0.3, bulk=0.0, line_tables=False)).forest()
+        if f.alt is not None and len(f.units) >= 4 and len(f.alt.units) >= 2:
+            break
+    f.alt_name = b"units.dwz"
+    f.build_id = b"\x42" * 20
+    open(os.path.join(tmp, "units.o"), "wb").write(build_file(f))
+    open(os.path.join(tmp, "units.dwz"), "wb").write(build_alt_file(f))
+    try:
+        os.rename(tmp, d)
+    except OSError:
+        import shutil
+        shutil.rmtree(tmp, ignore_errors=True)
+    return main
+
+
+# What is a unit's root is remembered per Dwarf once somebody asks: whichever DIE of whichever unit is asked about
+# first, the answers for all the others stay what they are.
+ROOT_QUERIES = ["unit (pos == 1) root ?root offset", "unit (pos >= 1) root ?root offset", "unit (pos == 2) root ?root offset", "unit (pos == 3) root ?root offset",
+                "entry (pos > 6) ?root offset", "entry (pos > 20) ?root offset", "unit root ?root offset", "entry ?root offset", "entry !root offset", "[entry ?root] length",
+                "entry (pos > 3) !root parent* ?root offset", "unit (pos == 0) root ?root offset", "unit (pos >= 2) entry ?root offset", "unit (pos == 1) entry !root offset",
+                "entry ?AT_import @AT_import ?root offset", "entry ?AT_import @AT_import !root offset", "[unit (pos >= 1) root] elem ?root offset",
+                "[entry] (|L| L elem (pos >= 9) ?root offset, L elem ?root offset)", "[entry] relem ?root offset"]
+
+
 def work_mix(task):
     seed, start, count = task
     ev = Evidence()
@@ -674,6 +711,11 @@ def work_mix(task):
                     ins_ = [x for x in CORE_INPUTS if applicable(p_, x)]
                     steps.append((p_, None, False, rnd.choice(ins_) if ins_ else ""))
             ev.label("mixed-sequence:archive-with-supplementary-files")
+        if rnd.random() < 0.1:
+            rf = rnd.sample([units_fixture(), "/repo/tests/a1.out", "/repo/tests/dwz-partial2-1", archive_fixture()], 2)
+            steps = [(rnd.choice(ROOT_QUERIES), rnd.choice(rf), rnd.random() < 0.3, "") for _ in range(rnd.randint(3, 8))]
+            reuse = rnd.random() < 0.4
+            ev.label("mixed-sequence:which-DIE-is-asked-first-whether-it-is-a-root")
         if reuse:
             # the same few queries again and again, on alternating inputs
             few = rnd.sample(steps, min(len(steps), 2))
@@ -769,6 +811,7 @@ def main(tier, seed):
                           "mixed sequences with one compiled query executed on several inputs": ev.labels.get("mixed-sequence:one-compiled-query-many-inputs", 0) > 100,
                           "repeated opens on the build without sanitizers": ev.labels.get("plain-repeat", 0) >= 15,
                           "mixed sequences that open an archive with supplementary files again and again": ev.labels.get("mixed-sequence:archive-with-supplementary-files", 0) > 40,
+                          "mixed sequences that ask different DIEs first whether they are roots": ev.labels.get("mixed-sequence:which-DIE-is-asked-first-whether-it-is-a-root", 0) > 60,
                           "mixed sequences with rejected compilations in between": ev.labels.get("mixed-sequence:rejected-compilations-in-between", 0) > 50,
                           "mixed sequences over twin files (same offsets, different meaning)": ev.labels.get("mixed-sequence:twin-files", 0) > 100})
 
